@@ -890,7 +890,7 @@ func (e *Exec) rangeNext(x *ssa.Next, it *RangeIter) Value {
 		}
 		return Tuple{e.tb.True, en.K, cur}
 	}
-	return Tuple{e.tb.False, e.zeroValue(tup.At(1).Type()), e.zeroValue(tup.At(2).Type())}
+	return Tuple{e.tb.False, e.zeroOrNil(tup.At(1).Type()), e.zeroOrNil(tup.At(2).Type())}
 }
 
 // ---------------------------------------------------------------- channels / goroutines (minimal)
@@ -989,4 +989,12 @@ func (e *Exec) selectOp(fr *frame, x *ssa.Select) Value {
 	}
 	e.end("limit", "blocking select with no ready case at "+e.where())
 	return nil
+}
+
+// zeroOrNil is zeroValue tolerating the "invalid type" go/ssa uses for unused range components.
+func (e *Exec) zeroOrNil(t types.Type) Value {
+	if b, ok := t.(*types.Basic); ok && b.Kind() == types.Invalid {
+		return nil
+	}
+	return e.zeroValue(t)
 }
